@@ -18,7 +18,7 @@ import os, sys, time, json, shutil, subprocess
 import build, checklib as cl, run, gen, l3, l3batch
 from check_c12 import cl_open
 
-FAULTS = ["refuse", "drop", "truncate", "status500", "empty", "nonjson", "nodurations", "nodistances", "nulls", "fewer", "fewer_dist", "fewer_dur", "emptyrows", "emptydist", "streamcut_str", "streamcut_key"]
+FAULTS = ["refuse", "drop", "truncate", "status500", "empty", "nonjson", "nodurations", "nodistances", "nulls", "fewer", "fewer_dist", "fewer_dur", "emptyrows", "emptydist", "streamcut_str", "streamcut_key", "nulldur_scalar_dist"]
 RETRIED = ("refuse", "drop")      # SimpleWeb's client silently retries once when no response header arrived
 
 
@@ -319,7 +319,7 @@ def main(pid, tier, seed, replay_path=None):
                recovery_histories=rec_hist, recovery_answers=rec_answers, recovery_histories_distinct_candidate_sets=rec_distinct,
                clusters_used=clusters_used, fault_free_reference_answers=baselines, connect_resets_not_retried=unretried,
                requests_without_router_lookup_after_a_fault=far_checks, fault_sequences=seq_count, fault_sequence_exchanges=seq_exchanges, answers_after_fault_sequences=seq_answers,
-               rule="each fault of the property's list (refuse, drop, truncate, status 500, empty body, non-JSON, no durations, null entries, fewer entries; also replies streamed without Content-Length that end inside a string literal or an object key, with waypoint objects carrying quotes and backslashes) at the origin lookup, the destination lookup or both, on 1- and 4-thread servers; expected answer = extracted Osrm.v reply handling + extracted routing model; liveness after every request; "
+               rule="each fault of the property's list (refuse, drop, truncate, status 500, empty body, non-JSON, no durations, null entries, fewer entries, a null first entry of durations with a scalar for distances - {\"durations\":[null],\"distances\":5}: the client's && chain must not evaluate distances[0]; also replies streamed without Content-Length that end inside a string literal or an object key, with waypoint objects carrying quotes and backslashes) at the origin lookup, the destination lookup or both, on 1- and 4-thread servers; expected answer = extracted Osrm.v reply handling + extracted routing model; liveness after every request; "
                     "stops spread over 2 or 3 clusters 39 km apart so that lookups have different candidate stop sets; recovery history after every fault = healthy request with its origin in another cluster than the failed lookup, then the faulted request again, healthy: both must get the byte-identical answer of the fault-free exchange sequence (which must equal the model's answer); non-trivial = distinct (fault, position, threads, degraded answer class); plus random SEQUENCES of 3-6 faulted exchanges (any fault at either lookup, different requests) followed by every request healthy: byte-identical to the fault-free answers",
                samples=[dict(fault="status500", position="origin", expected="route noroute 1")], answer_classes=classes,
                excluded_classes=["reply with MORE entries than stops asked (outside the property's fault list): model and binary both leave defined behaviour (Example osrm_more_entries_is_ub; the binary dies) — counted, not a C20 violation",
